@@ -69,18 +69,21 @@ D2(td, k, l) == LET a == IF k <= l THEN k ELSE l
                 IN 1 + td + ((a - 1) * td - ((a - 1) * (a - 2)) \div 2) + (b - a) + 1
 
 ---------------------------------------------------------------------------
-\* magnitudes are rounded *up* onto a coarse grid after every operation (a bound stays a bound;
-\* keeps them far away from 32 bits)
-Grid(x, g) == Norm(((x[1] * g) \div x[2]) + 1, g)
+\* Magnitudes live on one coarse grid: rounded *up* to a multiple of 1/256 (integers from 4096 on) after every
+\* operation - a bound stays a bound, and its numerators stay far away from 32 bits.
 Up(x) == IF x[1] = 0 THEN Zero
          ELSE IF x[2] = 1 THEN x
-         ELSE IF x[1] \div x[2] >= 256 THEN <<(x[1] \div x[2]) + 1, 1>>
-         ELSE IF x[1] \div x[2] >= 1 THEN (IF x[1] < 30000000 THEN Grid(x, 64) ELSE <<(x[1] \div x[2]) + 1, 1>>)
-         ELSE IF x[2] \div x[1] <= 64 THEN (IF x[1] < 500000 THEN Grid(x, 4096) ELSE <<1, 1>>)
-         ELSE IF x[1] < 8000 THEN Grid(x, 262144) ELSE <<1, 64>>
+         ELSE LET ip == x[1] \div x[2]
+              IN IF ip >= 4096 \/ x[1] >= 8000000 THEN <<ip + 1, 1>> ELSE Norm(((x[1] * 256) \div x[2]) + 1, 256)
 RMax(a, b) == IF RLt(a, b) THEN b ELSE a
-MAdd(a, b) == Up(RAdd(a, b))
-MMul(a, b) == Up(RMul(a, b))
+MAdd(a, b) == LET ua == Up(a)  ub == Up(b)
+              IN IF ua[1] \div ua[2] >= 1000000 \/ ub[1] \div ub[2] >= 1000000 THEN <<1000000, 1>> ELSE Up(RAdd(ua, ub))
+MMul(a, b) == LET ua == Up(a)  ub == Up(b)
+                  ia == ua[1] \div ua[2]  ib == ub[1] \div ub[2]
+              IN IF ua[1] = 0 \/ ub[1] = 0 THEN Zero
+                 ELSE IF ia >= 128 \/ ib >= 128
+                      THEN (IF (ia + 1) > 1000000 \div (ib + 1) THEN <<1000000, 1>> ELSE <<(ia + 1) * (ib + 1), 1>>)
+                      ELSE Up(RMul(ua, ub))
 
 ---------------------------------------------------------------------------
 (* One part of one case *)
@@ -116,6 +119,25 @@ PartTensor(P, C, cs, part, pk) ==
                 IF td = 0 THEN <<>>
                 ELSE IF td = gd THEN Inverse(Jac[s][q])
                 ELSE MatMul(Inverse(Gram(Jac[s][q])), MatT(Jac[s][q]))]]       \* td x gd
+      \* Second derivatives of the geometry (non-affine cells): dJ_cab = d J_ca / d X_b = sum_n x_nc d2 phi_n / dX_a dX_b,
+      \* dK_bkd = d K_kd / d X_b = -(K dJ_b K)_kd,  TrK_b = tr(K dJ_b) = (d det J / d X_b) / det J.
+      \* Present only when the harness tabulated second derivatives (square Jacobians).
+      HasD2 == td >= 1 /\ td = gd /\ Len(xtab[1]) > 1 + td
+      dJ == [s \in 1..nsides |-> [q \in 1..NQ |-> [c \in 1..gd |-> [a \in 1..td |-> [b \in 1..td |->
+               IF ~HasD2 THEN Zero
+               ELSE LET F(n) == RMul(XD(s, n, c), R(xtab[s][D2(td, a, b)][q][n][1])) IN RSumTo(F, nxn)]]]]]
+      dJM == [s \in 1..nsides |-> [q \in 1..NQ |->
+               IF ~HasD2 THEN Zero
+               ELSE LET F(n) == LET G(ab) == RAbs(R(xtab[s][1 + td + ab][q][n][1])) IN RSumTo(G, (td * (td + 1)) \div 2)
+                        H(c) == LET F2(n) == RMul(RAbs(XD(s, n, c)), F(n)) IN RSumTo(F2, nxn)
+                    IN Up(RSumTo(H, gd))]]                 \* one bound for every |dJ_cab|
+      dK == [s \in 1..nsides |-> [q \in 1..NQ |-> [b \in 1..td |-> [k \in 1..td |-> [d \in 1..gd |->
+               IF ~HasD2 THEN Zero
+               ELSE LET F(c) == LET G(a) == RMul(RMul(Kinv[s][q][k][c], dJ[s][q][c][a][b]), Kinv[s][q][a][d]) IN RSumTo(G, td)
+                    IN RNeg(RSumTo(F, gd))]]]]]
+      TrK == [s \in 1..nsides |-> [q \in 1..NQ |-> [b \in 1..td |->
+               IF ~HasD2 THEN Zero
+               ELSE LET F(k) == LET G(m) == RMul(Kinv[s][q][k][m], dJ[s][q][m][k][b]) IN RSumTo(G, gd) IN RSumTo(F, td)]]]
       \* Magnitudes for the rounding-error bound (never used for the value).  The kernel computes
       \* J, det J and K in floating point with cancellation, so the error of a quantity that is exactly
       \* zero is proportional to the magnitudes that went into it, not to its value:
@@ -168,24 +190,54 @@ PartTensor(P, C, cs, part, pk) ==
             loc == i - sub.off  node == (loc \div sub.bs) + 1  blk == loc % sub.bs
             cm == sp.cmap[comp + 1]                         \* <<sub, block, raw value component>>
             tb == part.tabs[sub.tab][s]
-            A(x) == IF ab THEN RAbs(x) ELSE x
-            K == IF ab THEN [k \in 1..td |-> [d \in 1..gd |-> KbM[s][q]]] ELSE Kinv[s][q]
+            A(x) == IF ab THEN Up(RAbs(x)) ELSE x
+            Mu(x, y) == IF ab THEN MMul(x, y) ELSE RMul(x, y)
+            Ad(x, y) == IF ab THEN MAdd(x, y) ELSE RAdd(x, y)
+            DivDet(x) == IF ab THEN MMul(x, Up(RInv(RAbs(DetJ[s][q])))) ELSE RDiv(x, DetJ[s][q])
+            \* abs-mode: the magnitude of an entry plus a floor proportional to the magnitudes it was computed from
+            \* (an entry that is exactly zero by cancellation still carries the rounding error of its parts)
+            Fl(x) == RDiv(x, <<1024, 1>>)
+            K == IF ab THEN [k \in 1..td |-> [d \in 1..gd |-> MAdd(RAbs(Kinv[s][q][k][d]), Fl(KbM[s][q]))]] ELSE Kinv[s][q]
             J == IF ab THEN JacM[s][q] ELSE Jac[s][q]
             \* reference value / derivatives of raw component vc (1-based) of this node
             Ref0(vc) == A(R(tb[1][q][node][vc]))
-            RefG(vc, d) == LET F(k) == RMul(A(K[k][d]), A(R(tb[D1(k)][q][node][vc]))) IN RSumTo(F, td)
-            RefH(vc, d1, d2) == LET F(k) == LET G(l) == RMul(RMul(A(K[k][d1]), A(K[l][d2])), A(R(tb[D2(td, k, l)][q][node][vc])))
-                                            IN RSumTo(G, td)
+            RefG(vc, d) == LET F(k) == Mu(A(K[k][d]), A(R(tb[D1(k)][q][node][vc]))) IN RSumTo(F, td)
+            \* abs-mode stand-ins for the geometry second derivatives (uniform bounds)
+            DJ(c, a, b) == IF ab THEN MAdd(RAbs(dJ[s][q][c][a][b]), Fl(dJM[s][q])) ELSE dJ[s][q][c][a][b]
+            DK(b, k, d) == IF ab THEN MAdd(RAbs(dK[s][q][b][k][d]),
+                                           Fl(MMul(MMul(RInt(td * gd), MMul(KbM[s][q], KbM[s][q])), dJM[s][q])))
+                           ELSE dK[s][q][b][k][d]
+            TR(b) == IF ab THEN MAdd(RAbs(TrK[s][q][b]), Fl(MMul(RInt(td * gd), MMul(KbM[s][q], dJM[s][q])))) ELSE TrK[s][q][b]
+            \* d2 v / dx_d1 dx_d2 = sum_b K_b,d2 sum_k ( dK_b,k,d1 d_k v + K_k,d1 d_b d_k v )
+            RefH(vc, d1, d2) == LET F(b) == LET G(k) == Ad(Mu(DK(b, k, d1), A(R(tb[D1(k)][q][node][vc]))),
+                                                          Mu(A(K[k][d1]), A(R(tb[D2(td, k, b)][q][node][vc]))))
+                                            IN Mu(A(K[b][d2]), RSumTo(G, td))
                                 IN RSumTo(F, td)
             RefAny(vc) == IF Len(dv) = 0 THEN Ref0(vc)
                           ELSE IF Len(dv) = 1 THEN RefG(vc, dv[1] + 1)
                           ELSE RefH(vc, dv[1] + 1, dv[2] + 1)
+            cc == cm[3] + 1
+            \* Piola maps, value and first derivative (the map itself varies over a non-affine cell):
+            \*   covariant      v_c = sum_a K_ac V_a
+            \*   contravariant  v_c = sum_a J_ca V_a / det J
+            \*   d v_c / dx_d = sum_b K_bd d/dX_b ( ... )
+            Cov0 == LET F(a) == Mu(A(K[a][cc]), Ref0(a)) IN RSumTo(F, td)
+            Cov1(d) == LET T1 == LET F(a) == Mu(A(K[a][cc]), RefG(a, d)) IN RSumTo(F, td)
+                           T2 == LET F(b) == LET G(a) == Mu(DK(b, a, cc), Ref0(a)) IN Mu(A(K[b][d]), RSumTo(G, td))
+                                 IN RSumTo(F, td)
+                       IN Ad(T1, T2)
+            Con0 == LET F(a) == Mu(A(J[cc][a]), Ref0(a)) IN DivDet(RSumTo(F, td))
+            Con1(d) == LET T1 == LET F(a) == Mu(A(J[cc][a]), RefG(a, d)) IN RSumTo(F, td)
+                           T2 == LET F(b) == LET G(a) == Mu(DJ(cc, a, b), Ref0(a)) IN Mu(A(K[b][d]), RSumTo(G, td))
+                                 IN RSumTo(F, td)
+                           T3 == LET V == LET F(a) == Mu(A(J[cc][a]), Ref0(a)) IN RSumTo(F, td)
+                                     F2(b) == Mu(A(K[b][d]), TR(b))
+                                 IN Mu(V, RSumTo(F2, td))
+                       IN DivDet(IF ab THEN Ad(Ad(T1, T2), T3) ELSE RSub(RAdd(T1, T2), T3))
         IN IF cm[1] # sd THEN Zero
            ELSE IF sub.map = "identity" THEN (IF cm[2] # blk THEN Zero ELSE RefAny(cm[3] + 1))
-           ELSE IF sub.map = "covariantPiola"
-                THEN LET F(a) == RMul(A(K[a][cm[3] + 1]), RefAny(a)) IN RSumTo(F, td)
-           ELSE \* contravariantPiola
-                LET F(a) == RMul(A(J[cm[3] + 1][a]), RefAny(a)) IN RDiv(RSumTo(F, td), A(DetJ[s][q]))
+           ELSE IF sub.map = "covariantPiola" THEN (IF Len(dv) = 0 THEN Cov0 ELSE Cov1(dv[1] + 1))
+           ELSE (IF Len(dv) = 0 THEN Con0 ELSE Con1(dv[1] + 1))       \* contravariantPiola
       Side(r) == IF r = "-" THEN 2 ELSE 1
       \* argument leaves: value for macro dof i (0-based over [+ side dofs, - side dofs])
       ArgDim(n) == P.spaces[P.args[n + 1]].dim
